@@ -197,6 +197,27 @@ pub fn selftest() -> i32 {
         }
     }
 
+    // 5. the getrandom shim owns the hash seeds of a spawned process: equal seeds give equal
+    // iteration orders, and the seed alphabet realises several orders
+    if crate::run::seed_shim().is_some() {
+        let me = std::env::current_exe().unwrap();
+        let order = |seed: u64| {
+            let r = crate::run::spawn(crate::run::Spawn { program: me.clone(), args: vec!["hash-order".into()], cwd: std::path::Path::new("/"), schedule_env: None, trace_file: None, strace: None, hash_seed: Some(seed) });
+            r.stdout.trim().to_string()
+        };
+        let orders: Vec<String> = (0..8).map(order).collect();
+        let again: Vec<String> = (0..8).map(order).collect();
+        checks += 2;
+        if orders != again || orders.iter().any(|o| o.len() != 7) {
+            failures.push(format!("hash-seed shim: equal seeds gave different orders: {:?} vs {:?}", orders, again));
+        }
+        if orders.iter().collect::<std::collections::BTreeSet<_>>().len() < 4 {
+            failures.push(format!("hash-seed shim: seeds 0..8 realise fewer than 4 orders of a 7-element set: {:?}", orders));
+        }
+    } else {
+        crate::outln!("NOTE hash-seed shim not built: fresh-process runs use free-running hash seeds");
+    }
+
     if failures.is_empty() {
         crate::outln!("selftest: ok ({} checks)", checks);
         0
